@@ -149,7 +149,7 @@ PROPS = {
     },
     "C10": {
         "level": "proof",
-        "rules": [("SP", 17, None), ("IM", 9, has("IM5")), ("HE", 3, has("scratch-private")), ("GL", 1, has("GL6"))],
+        "rules": [("SP", 17, None), ("IM", 9, has("IM5")), ("HE", 3, has("scratch-private")), ("GL", 9, has("GL6", "GL9"))],
         "explanation": "Structural proof of 'every per-node scratch slot is empty again when a public call returns', for all "
                        "call sequences: the only per-node mutable state is the two private RefCell fields (HE), the scratch "
                        "cell is written only by set_scratch/clear_scratch and semantic_hash only by cached_semantic_hash (IM5); "
@@ -270,7 +270,7 @@ PROPS = {
     },
     "C16": {
         "level": "proof",
-        "rules": [("GL", 10, hasnot("GL3", "component-cache", "GL6", "GL7")), ("CP", 2, has("IteTable:compl-flag")), ("ST", 2, None)],
+        "rules": [("GL", 18, hasnot("GL3", "component-cache", "GL6", "GL7")), ("CP", 2, has("IteTable:compl-flag")), ("ST", 2, None)],
         "explanation": "Complete structural argument for the first sentence: Lru::get returns Some(e.val) only under the "
                        "true edge of e.key == key (GL1); insert writes one Element{key,val,hash} of its own arguments into "
                        "the slot that get reads, grow re-inserts whole triples (GL2); the adapter's hash is a function of "
